@@ -1051,3 +1051,46 @@ def point_ops_rule(db, chk, cfg, rule="MINK.point-ops"):
     if n < 2:
         raise AnalysisBroken("%s: Point::operator+ / operator- not found (configuration %s)" % (rule, cfg))
     return n
+
+
+# ---------------------------------------------------------------------------
+# OPTIONS.forwarded: InflatePaths hands each of its options to the ClipperOffset option of the same name (C06, C07)
+# ---------------------------------------------------------------------------
+
+def inflate_options_rule(db, chk, cfg, rule="OPTIONS.forwarded"):
+    """InflatePaths (both overloads) is `ClipperOffset(miter_limit, arc_tolerance)` + AddPaths + Execute.  The constructor's parameters
+    are both doubles, so the compiler cannot tell them apart: each constructor argument that mentions parameters of InflatePaths
+    must mention the one whose name is the name of the constructor parameter it is bound to (resolved constructor declaration)."""
+    n = 0
+    for f in db.find("InflatePaths"):
+        if f.is_pattern or f.body is None:
+            continue
+        pn = {p.get("id"): p.get("name") for p in f.params}
+        for x in walk(f.body):
+            if x.get("kind") not in ("CXXConstructExpr", "CXXTemporaryObjectExpr") or "ClipperOffset" not in (dqt(x) or qt(x) or ""):
+                continue
+            args = [a for a in kids(x) if isinstance(a, dict) and a.get("kind")]
+            ctor = None
+            for g in db.funcs + list(db.all_func_decls.values()):
+                if g.cls == "ClipperOffset" and g.name == "ClipperOffset" and len(g.params) >= len(args) and len(g.params) >= 2 and "double" in (qt(g.params[0]) or ""):
+                    ctor = g
+                    break
+            if ctor is None:
+                raise AnalysisBroken("%s: constructor ClipperOffset(double, double, ..) not found" % rule)
+            for i, a in enumerate(args):
+                if a.get("kind") == "CXXDefaultArgExpr":
+                    continue
+                used = {pn[y["referencedDecl"]["id"]] for y in walk(a) if y.get("kind") == "DeclRefExpr" and y.get("referencedDecl", {}).get("id") in pn}
+                used -= {"precision", "scale"}
+                if not used:
+                    continue
+                want = ctor.params[i].get("name")
+                n += 1
+                ok = want in used
+                chk.instance(rule, {"function": f.qual, "sig": f.sig[:50], "ctor_param": want, "argument": canon(a)[:60], "cfg": cfg}, ok=ok)
+                if not ok:
+                    chk.violation(rule, f.qual, "%s|%s" % (f.sig[:30], want), "InflatePaths binds `%s` to ClipperOffset's parameter `%s`: the option the caller set is applied as a different "
+                                  "option (a miter limit used as arc tolerance or the reverse)" % (canon(a)[:60], want), where(x), cfg=cfg)
+    if n < 2:
+        raise AnalysisBroken("%s: fewer than 2 option arguments found in InflatePaths (configuration %s)" % (rule, cfg))
+    return n
